@@ -207,7 +207,7 @@ fn run_const_pratt(c: &Case) -> Result<String, String> {
             ops.push((op, j == 0));
         }
     }
-    catch(move || const_dispatch!(ops, pairs, 1, 2, 3, 4, 5, 6, 7, 8, 9, 10, 11, 12, 13, 14, 15, 16, 17, 18))
+    catch(move || const_dispatch!(ops, pairs, 1, 2, 3, 4, 5, 6, 7, 8, 9, 10, 11, 12, 13, 14, 15, 16, 17, 18, 19))
 }
 
 #[allow(deprecated)]
@@ -306,6 +306,33 @@ pub fn check(ctx: &mut Ctx, c: &Case) -> Result<(), Fail> {
     Ok(())
 }
 
+/// A table in which one rule is registered twice (another level, kind or associativity): what such a table
+/// *means* is not stated, but "ConstPrattParser gives the same tree for the same table" still is.
+pub fn check_duplicate(ctx: &mut Ctx, c: &Case) -> Result<(), Fail> {
+    ctx.eval();
+    ctx.class("duplicate-registration");
+    let a = run_pratt(c);
+    let b = run_const_pratt(c);
+    let same = match (&a, &b) {
+        (Ok(x), Ok(y)) => x == y,
+        (Err(_), Err(_)) => true,
+        _ => false,
+    };
+    if !same {
+        return Err(Fail::new("c13:const-pratt-vs-pratt:duplicate-registration", format!("table {:?} sequence {:?}: PrattParser gives {a:?}, ConstPrattParser gives {b:?}", c.table.levels, c.seq), case_json(c)));
+    }
+    if a.is_ok() {
+        ctx.class("duplicate-registration:both-parse");
+    }
+    Ok(())
+}
+
+fn has_duplicate(t: &Table) -> bool {
+    let ids: Vec<u8> = t.levels.iter().flatten().map(|(r, _)| *r).collect();
+    let set: std::collections::BTreeSet<u8> = ids.iter().copied().collect();
+    set.len() != ids.len()
+}
+
 fn table_strategy(infix_only: bool) -> BoxedStrategy<Table> {
     let kind = if infix_only {
         prop_oneof![Just(Kind::InfixL), Just(Kind::InfixR)].boxed()
@@ -372,6 +399,16 @@ pub fn run(ctx: &mut Ctx) {
     let n = ctx.share(ctx.tier.pick(300_000, 8_000_000));
     ctx.run_prop(n, 1, case_strategy(false), |ctx, c| check(ctx, c));
     ctx.run_prop(n / 3, 2, case_strategy(true), |ctx, c| check(ctx, c));
+    // one rule registered twice: only the agreement of the two Pratt parsers is asserted
+    let dup = (case_strategy(false), any::<u16>(), any::<u16>(), 0u8..4).prop_map(|(mut c, which, level, kind)| {
+        let all: Vec<(u8, Kind)> = c.table.levels.iter().flatten().copied().collect();
+        let (r, _) = all[(which as usize * all.len()) >> 16];
+        let l = (level as usize * c.table.levels.len()) >> 16;
+        let k = [Kind::Prefix, Kind::Postfix, Kind::InfixL, Kind::InfixR][kind as usize];
+        c.table.levels[l].push((r, k));
+        c
+    });
+    ctx.run_prop(n / 6, 3, dup, |ctx, c| check_duplicate(ctx, c));
     // exhaustive block: a fixed 3-level table with every kind, all well-formed sequences with <= k operands
     let k = ctx.tier.pick(3, 4);
     let table = Table { levels: vec![vec![(1, Kind::InfixL), (2, Kind::Prefix)], vec![(3, Kind::InfixR), (4, Kind::Postfix)], vec![(5, Kind::Prefix), (6, Kind::InfixL), (7, Kind::Postfix)]] };
@@ -429,12 +466,15 @@ pub fn run(ctx: &mut Ctx) {
 pub fn replay(case: &Value) -> Result<(), Fail> {
     let c = case_from_json(case);
     let mut ctx = Ctx::new("C13", Tier::Quick, 0, 0, 1);
+    if has_duplicate(&c.table) {
+        return check_duplicate(&mut ctx, &c);
+    }
     check(&mut ctx, &c)
 }
 
 pub const DEF: CheckDef = CheckDef {
     id: "C13",
-    rule: "proptest operator tables (1-6 levels x 1-3 operators, each prefix/postfix/infix-left/infix-right; a second stream of infix-only tables with one associativity per level for PrecClimber) x well-formed sequences prefix* operand postfix* (infix prefix* operand postfix*)* of <= 12 operands realised as flat Pairs via PairsBuilder; plus every sequence of <= 3 (thorough 4) operand groups over a fixed 3-level table with all four kinds. Oracle: an independently written two-stack shunting-yard with the binding powers of the statement; PrattParser, ConstPrattParser::new_const (same table) and, where applicable, PrecClimber must yield the same S-expression; independent validity predicate (each operator token once, operands in input order). Non-trivial = >= 3 levels used and (a prefix operator of lower level than a later infix operator, or both associativities present); distinct = distinct (table, sequence).",
+    rule: "proptest operator tables (1-6 levels x 1-3 operators, each prefix/postfix/infix-left/infix-right; a second stream of infix-only tables with one associativity per level for PrecClimber; a third stream re-registers one rule at another level/kind, for which only PrattParser == ConstPrattParser is asserted) x well-formed sequences prefix* operand postfix* (infix prefix* operand postfix*)* of <= 12 operands realised as flat Pairs via PairsBuilder; plus every sequence of <= 3 (thorough 4) operand groups over a fixed 3-level table with all four kinds. Oracle: an independently written two-stack shunting-yard with the binding powers of the statement; PrattParser, ConstPrattParser::new_const (same table) and, where applicable, PrecClimber must yield the same S-expression; independent validity predicate (each operator token once, operands in input order). Non-trivial = >= 3 levels used and (a prefix operator of lower level than a later infix operator, or both associativities present); distinct = distinct (table, sequence).",
     assumptions: &["tables have distinct rule ids; rule id 0 is the operand"],
     floor: |t| t.pick(10_000, 100_000),
     shards: |_| 16,
